@@ -206,8 +206,8 @@ impl<Pk: SimplicityKey> Policy<Pk> {
                 ref mut left,
                 ref mut right,
             } => {
-                left.as_ref().clone().sort();
-                right.as_ref().clone().sort();
+                Arc::make_mut(left).sort();
+                Arc::make_mut(right).sort();
                 if right > left {
                     mem::swap(left, right);
                 }
